@@ -2,7 +2,7 @@
    encode the observation.  [run] is what the extracted CLI calls; [judge] applies the
    executable property predicates of Spec.v to an observation made on the IMPLEMENTATION. *)
 From Coq Require Import List Ascii String ZArith Bool.
-From Model Require Import Bytes Wire Glob StaticRoute Spec.
+From Model Require Import Bytes Wire Glob StaticRoute RoundRobin Pins Resolver SendFault Spec.
 Import ListNotations.
 
 Definition decode_error : list bytes := [s2b "decode-error"].
@@ -33,8 +33,131 @@ Definition judge_findroute (args : list bytes) : list bytes :=
   | None => decode_error
   end.
 
+(* ---- rr: nops {op arg}..   op = add|remove|dispatch ---- *)
+Definition d_rr_op : dec rr_op :=
+  dlet o := d_bytes in dlet a := d_bytes in
+  if beq o (s2b "add") then d_ret (RAdd a)
+  else if beq o (s2b "remove") then d_ret (RRemove a)
+  else if beq o (s2b "dispatch") then d_ret RDispatch
+  else (fun _ => None).
+Definition e_rr_out (o : rr_out) : list bytes :=
+  match o with
+  | OAdded => [s2b "added"]
+  | ORemoved c => [s2b "removed"; e_bool c]
+  | OSent None => [s2b "sent"; s2b "none"]
+  | OSent (Some a) => [s2b "sent"; a]
+  end.
+Definition run_rr (args : list bytes) : list bytes :=
+  match run_dec (d_list d_rr_op) args with
+  | Some ops => let '(s, outs) := rr_run rr_init ops in
+                flat_map e_rr_out outs ++ [s2b "final"] ++ e_list (fun a => [a]) (rr_backends s)
+  | None => decode_error
+  end.
+
+(* ---- pins: timeout_s nops {op k b n}..   op = add|get|remove|adv ---- *)
+Definition d_pin_op : dec pin_op :=
+  dlet o := d_bytes in dlet k := d_bytes in dlet b := d_bytes in dlet n := d_int in
+  if beq o (s2b "add") then d_ret (PAdd k b n)
+  else if beq o (s2b "get") then d_ret (PGet k)
+  else if beq o (s2b "remove") then d_ret (PRemove k)
+  else if beq o (s2b "adv") then d_ret (PAdvance n)
+  else (fun _ => None).
+Definition e_pin_out (o : pin_out * nat) : list bytes :=
+  (match fst o with
+   | PNone => [s2b "-"]
+   | PGot None => [s2b "none"]
+   | PGot (Some b) => [b]
+   end) ++ [e_nat (snd o)].
+Definition run_pins (args : list bytes) : list bytes :=
+  match run_dec (d_pair d_int (d_list d_pin_op)) args with
+  | Some (t, ops) => flat_map e_pin_out (snd (pins_run (0%Z, pins_new t 0%Z) ops))
+  | None => decode_error
+  end.
+
+(* ---- resolver: port nsteps { fail | ok n addr.. }.. ---- *)
+Definition d_outcome : dec outcome :=
+  dlet o := d_bytes in
+  if beq o (s2b "fail") then d_ret RFail
+  else if beq o (s2b "ok") then dlet l := d_list d_bytes in d_ret (ROk l)
+  else (fun _ => None).
+Fixpoint resolver_run (port : bytes) (st : rentry * rr) (os : list outcome) : list bytes :=
+  match os with
+  | [] => []
+  | o :: r =>
+      let '(st', outs) := resolver_step port st o in
+      (e_list (fun a => [a]) (rr_backends (snd st'))
+       ++ [e_nat (List.length (filter (fun x => match x with ORemoved true => true | _ => false end) outs))]
+       ++ e_list (fun a => [a]) (re_addrs (fst st')))
+      ++ resolver_run port st' r
+  end.
+Definition run_resolver (args : list bytes) : list bytes :=
+  match run_dec (d_pair d_bytes (d_list d_outcome)) args with
+  | Some (port, os) => resolver_run port (rentry_init, rr_init) os
+  | None => decode_error
+  end.
+
+(* ---- sendfault:  kind nsends primary sec_present secondary, then per send: ndials {nscript bit..}..
+     kind = client | backend ; primary/secondary = absent | conn nscript bit..
+     a send's dial attempts beyond its plan are refused  ---- *)
+Definition d_script : dec conn_script := d_list d_bool.
+Definition d_cached : dec (option conn_script) :=
+  dlet o := d_bytes in
+  if beq o (s2b "absent") then d_ret None
+  else dlet s := d_script in d_ret (Some s).
+Definition count_ev (f : io_event -> bool) (tr : list io_event) : nat := List.length (filter f tr).
+Definition is_write (c : nat) (ok : bool) (e : io_event) : bool :=
+  match e with EWrite c' ok' => Nat.eqb c c' && Bool.eqb ok ok' | _ => false end.
+Definition is_close (c : nat) (e : io_event) : bool :=
+  match e with EClose c' => Nat.eqb c c' | _ => false end.
+Definition is_dial_ok (e : io_event) : bool := match e with EDial (Some _) => true | _ => false end.
+(* observation of one send: ok, successful dials, (ok writes, failed writes, closes) of the two
+   cached connections, successful writes per dialed connection (ids 2 .. next-1) *)
+Definition e_send_obs (next : nat) (tr : list io_event) (ok : bool) : list bytes :=
+  [e_bool ok; e_nat (count_ev is_dial_ok tr)] ++
+  flat_map (fun c => [e_nat (count_ev (is_write c true) tr); e_nat (count_ev (is_write c false) tr);
+                      e_nat (count_ev (is_close c) tr)]) [0%nat; 1%nat] ++
+  e_list (fun c => [e_nat (count_ev (is_write c true) tr)]) (seq 2 (next - 2)).
+Definition with_plan (w : world) (plan : list conn_script) : world :=
+  {| w_conns := w_conns w; w_dials := map Some plan ++ [None; None; None; None]; w_next := w_next w |}.
+Fixpoint sendfault_client (plans : list (list conn_script)) (f : failover) (w : world) : list bytes :=
+  match plans with
+  | [] => []
+  | pl :: r => let '(f', w', tr, ok) := failover_send f (with_plan w pl) in
+               e_send_obs (w_next w') tr ok ++ sendfault_client r f' w'
+  end.
+Fixpoint sendfault_backend (plans : list (list conn_script)) (c : option nat) (w : world) : list bytes :=
+  match plans with
+  | [] => []
+  | pl :: r => let '(c', w', tr, ok) := tcp_backend_send c (with_plan w pl) in
+               e_send_obs (w_next w') tr ok ++ sendfault_backend r c' w'
+  end.
+Definition run_sendfault (args : list bytes) : list bytes :=
+  match run_dec (dlet kind := d_bytes in dlet n := d_nat in
+                 dlet pri := d_cached in dlet sec_present := d_bool in dlet sec := d_cached in
+                 dlet plans := d_rep (d_list d_script) n in d_ret (kind, pri, sec_present, sec, plans)) args with
+  | Some (kind, pri, sec_present, sec, plans) =>
+      let conns := (match pri with Some s => [(0%nat, s)] | None => [] end) ++
+                   (match sec with Some s => [(1%nat, s)] | None => [] end) in
+      let w := {| w_conns := conns; w_dials := []; w_next := 2%nat |} in
+      if beq kind (s2b "client") then
+        let f := {| fo_primary := match pri with
+                                  | Some _ => Some {| tc_conn := Some 0%nat; tc_reconnectable := false |}
+                                  | None => None end;
+                    fo_secondary := if sec_present
+                                    then Some {| tc_conn := match sec with Some _ => Some 1%nat | None => None end;
+                                                 tc_reconnectable := true |}
+                                    else None |} in
+        sendfault_client plans f w
+      else sendfault_backend plans (match pri with Some _ => Some 0%nat | None => None end) w
+  | None => decode_error
+  end.
+
 Definition run (comp : bytes) (args : list bytes) : list bytes :=
   if beq comp (s2b "findroute") then run_findroute args
+  else if beq comp (s2b "rr") then run_rr args
+  else if beq comp (s2b "pins") then run_pins args
+  else if beq comp (s2b "resolver") then run_resolver args
+  else if beq comp (s2b "sendfault") then run_sendfault args
   else [s2b "unknown-component"].
 
 Definition judge (comp : bytes) (args : list bytes) : list bytes :=
